@@ -68,8 +68,10 @@ def main():
                 rec["digest_patched"] = digest(os.path.join(d, "equiv.py"))
                 rec["alarms"] = {}
                 t0 = time.time()
-                for c in checks:
-                    r = sh("cd %s && ./check %s --tier quick" % (ROOT, c))
+                from concurrent.futures import ThreadPoolExecutor
+                with ThreadPoolExecutor(int(os.environ.get("EVAL_JOBS", "1"))) as ex:
+                    outs = list(ex.map(lambda c: (c, sh("cd %s && ./check %s --tier quick" % (ROOT, c))), checks))
+                for c, r in outs:
                     if r.returncode != 0:
                         rec["alarms"][c] = {"exit": r.returncode, "lines": [l for l in r.stdout.splitlines() if l.startswith(("VIOLATION", "HARNESS", "TIMEOUT"))][:3],
                                             "tail": (r.stdout + r.stderr)[-600:]}
